@@ -503,6 +503,18 @@ func (s *Sim) inject(in Inj) {
 		if ctx != nil {
 			reactive.PurgeCache(ctx)
 		}
+	case "flush":
+		// RerunImmediately only shortens the wait of the next run (flushCh); in the model a waiting run is
+		// enabled at any time, so the call has no label of its own
+		s.mu.Lock()
+		var rr *reactive.Rerunner
+		if in.Target < len(s.rrs) {
+			rr = s.rrs[in.Target]
+		}
+		s.mu.Unlock()
+		if rr != nil {
+			rr.RerunImmediately()
+		}
 	}
 }
 
